@@ -85,6 +85,51 @@ pub mod verif_clock {
     }
 }
 
+/// Verification hook (only with `--cfg rre_verif`; absent from normal builds).
+///
+/// Numbered crash points of the file backend's `checkpoint` (incl. its retention clean-up) and `restore`
+/// procedures: one `point(label)` call before the first and after every file-system / bookkeeping effect,
+/// counted per thread from the last `arm`. When the armed index is reached the label is written to stderr
+/// and the PROCESS is aborted (`std::process::abort()`, SIGABRT: no unwinding, no destructors, no flush) -
+/// meant for a child process whose parent then inspects the directory the dead child left behind.
+#[cfg(rre_verif)]
+pub mod verif_crash {
+    use std::cell::Cell;
+
+    thread_local! {
+        static AT: Cell<Option<u64>> = const { Cell::new(None) };
+        static HIT: Cell<u64> = const { Cell::new(0) };
+    }
+
+    /// `Some(n)`: abort the process at the n-th crash point (0-based) reached on this thread from now on;
+    /// `None`: disarmed. Resets the counter either way.
+    pub fn arm(at: Option<u64>) {
+        AT.with(|c| c.set(at));
+        HIT.with(|c| c.set(0));
+    }
+
+    /// crash points passed on this thread since the last `arm`
+    pub fn hits() -> u64 {
+        HIT.with(|c| c.get())
+    }
+
+    /// a numbered crash point; `label` names the effect that has just completed (`begin`: none yet)
+    pub fn point(label: &str) {
+        let n = HIT.with(|c| {
+            let n = c.get();
+            c.set(n + 1);
+            n
+        });
+        if AT.with(|c| c.get()) == Some(n) {
+            use std::io::Write;
+            let mut e = std::io::stderr();
+            let _ = writeln!(e, "@{} {}", n, label);
+            let _ = e.flush();
+            std::process::abort();
+        }
+    }
+}
+
 /// Result type for state operations
 pub type StateResult<T> = Result<T, RuleEngineError>;
 
@@ -583,6 +628,8 @@ impl StateStore {
             }
             StateBackend::File { path } => {
                 // Serialize and save to file
+                #[cfg(rre_verif)]
+                verif_crash::point("begin");
                 let checkpoint_path = path.join(&checkpoint_id);
                 fs::create_dir_all(&checkpoint_path).map_err(|e| {
                     RuleEngineError::ExecutionError(format!(
@@ -591,11 +638,15 @@ impl StateStore {
                     ))
                 })?;
 
+                #[cfg(rre_verif)]
+                verif_crash::point("mkdir");
                 let data_path = checkpoint_path.join("state.json");
                 let json = serde_json::to_string_pretty(&snapshot).map_err(|e| {
                     RuleEngineError::ExecutionError(format!("Failed to serialize state: {}", e))
                 })?;
 
+                #[cfg(rre_verif)]
+                verif_crash::point("serialise");
                 let mut file = fs::File::create(&data_path).map_err(|e| {
                     RuleEngineError::ExecutionError(format!(
                         "Failed to create checkpoint file: {}",
@@ -603,10 +654,14 @@ impl StateStore {
                     ))
                 })?;
 
+                #[cfg(rre_verif)]
+                verif_crash::point("create");
                 file.write_all(json.as_bytes()).map_err(|e| {
                     RuleEngineError::ExecutionError(format!("Failed to write checkpoint: {}", e))
                 })?;
 
+                #[cfg(rre_verif)]
+                verif_crash::point("write");
                 let metadata = CheckpointMetadata {
                     id: checkpoint_id.clone(),
                     name: name.into(),
@@ -621,11 +676,17 @@ impl StateStore {
                 let mut checkpoints = self.checkpoints.write().unwrap();
                 checkpoints.push(metadata);
 
+                #[cfg(rre_verif)]
+                verif_crash::point("push");
                 // Clean old checkpoints
                 if checkpoints.len() > self.config.max_checkpoints {
                     let old_checkpoint = checkpoints.remove(0);
                     let old_path = path.join(&old_checkpoint.id);
+                    #[cfg(rre_verif)]
+                    verif_crash::point("drop");
                     let _ = fs::remove_dir_all(old_path);
+                    #[cfg(rre_verif)]
+                    verif_crash::point("rmtree");
                 }
             }
             #[cfg(feature = "streaming-redis")]
@@ -663,6 +724,10 @@ impl StateStore {
             .unwrap()
             .as_millis() as u64;
 
+        #[cfg(rre_verif)]
+        if matches!(self.config.backend, StateBackend::File { .. }) {
+            verif_crash::point("stamp");
+        }
         Ok(checkpoint_id)
     }
 
@@ -676,6 +741,8 @@ impl StateStore {
                 let checkpoint_path = path.join(checkpoint_id);
                 let data_path = checkpoint_path.join("state.json");
 
+                #[cfg(rre_verif)]
+                verif_crash::point("begin");
                 if !data_path.exists() {
                     return Err(RuleEngineError::ExecutionError(format!(
                         "Checkpoint '{}' not found",
@@ -683,6 +750,8 @@ impl StateStore {
                     )));
                 }
 
+                #[cfg(rre_verif)]
+                verif_crash::point("exists");
                 let mut file = fs::File::open(&data_path).map_err(|e| {
                     RuleEngineError::ExecutionError(format!(
                         "Failed to open checkpoint file: {}",
@@ -690,11 +759,15 @@ impl StateStore {
                     ))
                 })?;
 
+                #[cfg(rre_verif)]
+                verif_crash::point("open");
                 let mut json = String::new();
                 file.read_to_string(&mut json).map_err(|e| {
                     RuleEngineError::ExecutionError(format!("Failed to read checkpoint: {}", e))
                 })?;
 
+                #[cfg(rre_verif)]
+                verif_crash::point("read");
                 let snapshot: HashMap<String, Value> =
                     serde_json::from_str(&json).map_err(|e| {
                         RuleEngineError::ExecutionError(format!(
@@ -703,15 +776,21 @@ impl StateStore {
                         ))
                     })?;
 
+                #[cfg(rre_verif)]
+                verif_crash::point("parse");
                 // Clear current state and restore
                 let mut state = self.state.write().unwrap();
                 state.clear();
+                #[cfg(rre_verif)]
+                verif_crash::point("clear");
 
                 for (key, value) in snapshot {
                     let entry = StateEntry::new(value, None);
                     state.insert(key, entry);
                 }
 
+                #[cfg(rre_verif)]
+                verif_crash::point("load");
                 Ok(())
             }
             #[cfg(feature = "streaming-redis")]
